@@ -31,8 +31,19 @@ struct gv_dms {       /* what the formatting tail is given / what the string sho
     __CPROVER_assert((r) < 2 * M_PI, "dms2rad: result < 2 pi (angle normalised to [0, 2 pi))");                    \
   } while (0)
 double gv_gon0;        /* ghost: |gon| on entry */
+int gv_d0, gv_m0;      /* ghost: the fields before the round-up test (captured at `ostringstream sec;`) */
+double gv_s0;
 int gv_exp_d, gv_exp_m; /* ghost: expected fields at a tabulated input (h_points) */
 double gv_exp_sec;
+
+/* stub of the first formatting passage (the seconds printed alone, then `compare(0, 2, "60") == 0`): assumed
+   contract, see unit.json trusted_base.  For 0 <= sec < 60 the text starts with "60" iff it rounds up to 60.0..0. */
+static inline bool gv_prints_60(double sec, int prec)
+{
+  __CPROVER_assert(0 <= sec && sec < 60, "seconds value in [0, 60) before the round-up test");
+  __CPROVER_assert(0 <= prec && prec <= 8, "precision in 0..8");
+  return GV_ROUNDS_TO_60(sec, prec);
+}
 
 /* stub of the formatting tail (assumed contract, see unit.json trusted_base).  The obligations of property C18
    ("valid field ranges", "values whose seconds round up") are asserted on what the real prefix hands over. */
@@ -42,6 +53,11 @@ static inline struct gv_dms gv_print_dms(int d, int m, double sec, bool negative
   __CPROVER_assert(0 <= m && m <= 59, "minutes field in 0..59");
   __CPROVER_assert(0 <= sec && sec < 60, "seconds value in [0, 60) before formatting");
 #if GV_PART == 1
+  /* what is printed is the sexagesimal ROUNDING of the computed angle gv_d0-gv_m0-gv_s0 at prec decimals: unchanged when
+     the seconds do not round up to 60, otherwise exactly one minute more (in minutes: d*60+m) and zero seconds */
+  __CPROVER_assert(GV_ROUNDS_TO_60(gv_s0, prec) ? (sec == 0 && (long)d * 60 + m == (long)gv_d0 * 60 + gv_m0 + 1)
+                                                : (sec == gv_s0 && d == gv_d0 && m == gv_m0),
+                   "the printed fields are the computed angle rounded to prec decimals of a second (carry of exactly one minute)");
   __CPROVER_assert(!GV_ROUNDS_TO_60(sec, prec), "printed seconds field < 60 (does not round up to 60.0..0 at prec decimals)");
 #endif
 #if GV_PART == 2
@@ -63,9 +79,9 @@ static inline struct gv_dms gv_print_dms(int d, int m, double sec, bool negative
 //@ contract gon2deg
 __CPROVER_requires(gon >= -4e6 && gon <= 4e6)
 __CPROVER_requires(0 <= prec && prec <= 8 && 0 <= sign && sign <= 3)
-__CPROVER_assigns(gv_gon0)
+__CPROVER_assigns(gv_gon0, gv_d0, gv_m0, gv_s0)
 __CPROVER_ensures(__CPROVER_return_value.negative == (__CPROVER_old(gon) < 0))
-__CPROVER_ensures(0 <= __CPROVER_return_value.d && __CPROVER_return_value.d <= 3600000)
+__CPROVER_ensures(0 <= __CPROVER_return_value.d && __CPROVER_return_value.d <= 3600001)
 __CPROVER_ensures(0 <= __CPROVER_return_value.m && __CPROVER_return_value.m <= 59)
 __CPROVER_ensures(0 <= __CPROVER_return_value.sec && __CPROVER_return_value.sec < 60)
 //@ entry gon2deg
@@ -73,6 +89,8 @@ GV_CANARY("gon2deg entry");
 gv_gon0 = gon < 0 ? -gon : gon;
 //@ end
 
+//@ at gon2deg precarry
+gv_d0 = d; gv_m0 = m; gv_s0 = gon;   /* ghost capture only */
 //@ entry rad2dms
 GV_CANARY("rad2dms entry");
 //@ entry dms2rad
@@ -80,16 +98,10 @@ GV_CANARY("dms2rad entry");
 //@ end
 
 //@ harness
-#ifdef GV_EXCL_TINY_NEG   /* exclusion predicate of the finding "tiny negative angle normalises to the full turn" */
-#define GV_NOT_TINY_NEG(x) __CPROVER_assume(!((x) < 0 && (x) > -1e-9))
-#else
-#define GV_NOT_TINY_NEG(x)
-#endif
 void h_rad2dms(void)
 {
   double rad;
   __CPROVER_assume(rad >= -4 * M_PI && rad <= 4 * M_PI);
-  GV_NOT_TINY_NEG(rad);
   double w_x = rad;
   double r = rad2dms(rad);
   GV_CANARY("h_rad2dms end");
@@ -99,7 +111,6 @@ void h_dms2rad(void)
 {
   double dms;
   __CPROVER_assume(dms >= -720 && dms <= 720);
-  GV_NOT_TINY_NEG(dms);
   double w_x = dms;
   double r = dms2rad(dms);
   GV_CANARY("h_dms2rad end");
@@ -110,18 +121,6 @@ void h_gon2deg(void)
   int sign, prec;
   __CPROVER_assume(gon >= -4e6 && gon <= 4e6);
   __CPROVER_assume(0 <= prec && prec <= 8 && 0 <= sign && sign <= 3);
-#ifdef GV_EXCL_ROUNDUP   /* exclusion predicate of the finding "seconds print as 60": the angle is not within 0.6" below a
-                            full minute.  f = fraction of the minute = frac(frac(0.9|gon|) * 60), deliberately evaluated
-                            in the operation order of the definition degrees -> minutes so that it is the same IEEE
-                            value the code works with (a differently rounded f makes the exclusion run undecidable
-                            in 600 s) */
-  {
-    double g1 = (gon < 0 ? -gon : gon) * 0.9;
-    double g2 = (g1 - (double)(int)g1) * 60;
-    double f = g2 - (double)(int)g2;
-    __CPROVER_assume(f < 0.99);
-  }
-#endif
   double w_gon = gon;
   int w_prec = prec, w_sign = sign;
   struct gv_dms r = gon2deg(gon, sign, prec);
@@ -153,6 +152,11 @@ void h_points(void)
   gv_exp_d = gv_points[k].d;
   gv_exp_m = gv_points[k].m;
   gv_exp_sec = gv_points[k].sec;
+  if (GV_ROUNDS_TO_60(gv_exp_sec, prec)) {   /* sexagesimal rounding: 59.99.." at prec decimals is the next full minute */
+    gv_exp_sec = 0;
+    if (++gv_exp_m == 60) { gv_exp_m = 0; ++gv_exp_d; }
+  }
+  int w_prec = prec;
   double w_gon = gv_points[k].gon;
   struct gv_dms r = gon2deg(gv_points[k].gon, sign, prec);
   __CPROVER_assert(r.negative == (gv_points[k].gon < 0), "sign flag follows the sign of the input");
